@@ -26,6 +26,7 @@ class Model(LPModel):
         self.lin_constr = []
         self.pws_constr = []
         self.cone_constr = []
+        self.ip_constr = []
         self.bounds = []
         self.aux_constr = []
         self.aux_bounds = []
